@@ -466,6 +466,70 @@ var ruleCloneChain = &core.Rule{ID: "R03.3", Min: 5,
 				}
 			}
 		}
+		if pPhi != nil && lastPhi == nil {
+			// the loop may carry, instead of the previous clone, the address of its still empty parent field
+			for _, in := range pPhi.Block().Instrs {
+				link, ok := in.(*ssa.Phi)
+				if !ok {
+					break
+				}
+				h := link.Block()
+				okLink, nBack := true, 0
+				var cl0 *nodeCopy
+				for k, pred := range h.Preds {
+					fa, isFA := link.Edges[k].(*ssa.FieldAddr)
+					if !isFA || fa.Field != m.tm.FParent {
+						okLink = false
+						break
+					}
+					if !h.Dominates(pred) {
+						if fa.X != first.val {
+							okLink = false
+						}
+						continue
+					}
+					nBack++
+					// back edge: &(*link).parent, read after *link = <copy of p> in the same block
+					ld, isLd := fa.X.(*ssa.UnOp)
+					if !isLd || ld.Op != token.MUL || ld.X != ssa.Value(link) || ld.Block() != pred {
+						okLink = false
+						break
+					}
+					var stored ssa.Value
+					for _, x := range pred.Instrs {
+						if x == ssa.Instruction(ld) {
+							break
+						}
+						if st, isSt := x.(*ssa.Store); isSt && st.Addr == ssa.Value(link) {
+							stored = st.Val
+						}
+					}
+					cl := m.copyOf(stored)
+					if cl == nil {
+						okLink = false
+						break
+					}
+					cl0 = cl
+					s.Check(m.isParentOf(pPhi.Edges[k], pPhi), "step to the next ancestor", c.Pos(pred.Instrs[0].Pos()), "p = parent(p)", "the loop does not advance to the parent of the current ancestor")
+					s.Check(cl.src == ssa.Value(pPhi), "ancestor is cloned", c.Pos(pred.Instrs[0].Pos()), "clone(p, nil)", "the value linked into the result chain is not a fresh clone of the current ancestor (a shared tree node would leak to the caller)")
+					s.Check(cl.ps == nil, "ancestor clone has no parameters", c.Pos(cl.val.Pos()), "nil parameter map", "an ancestor is cloned with a parameter map: the Parent() chain would carry parameters")
+					s.OK("previous clone is linked to it", c.Pos(cl.val.Pos()), "*link = clone, link = &clone.parent")
+				}
+				if !okLink || nBack == 0 || cl0 == nil {
+					continue
+				}
+				// exit only on p == nil
+				okExit := false
+				if iff := core.IfOf(h); iff != nil {
+					if bo, ok := iff.Cond.(*ssa.BinOp); ok && bo.X == ssa.Value(pPhi) && core.IsNilConst(bo.Y) && (bo.Op == token.NEQ || bo.Op == token.EQL) {
+						okExit = true
+					}
+				}
+				s.Check(okExit, "loop ends only at the root", c.Pos(h.Instrs[0].Pos()), "condition p != nil", "the ancestor loop does not run until the parent is nil: the chain could be cut short or overrun")
+				checkCopyFields(c, s, m, bodies, nil)
+				return
+			}
+		}
 		if pPhi == nil || lastPhi == nil || pPhi.Block() != lastPhi.Block() {
 			s.Bad("ancestor loop", c.Pos(f.Pos()), "no loop carrying (current ancestor, previous clone) starting at (parent(receiver), leaf clone)")
 			return
